@@ -5,6 +5,7 @@
     [opt_heuristic] (Gen/Handlers.v) are regenerated from PEPit's sources on every check. *)
 From Coq Require Import List String Bool.
 From PV Require Import Model.Accessors Gen.Handlers Proofs.C16Accessors.
+From PV Require Import Model.EntryPlan Gen.Entry.
 Import ListNotations.
 Open Scope string_scope.
 
@@ -169,6 +170,14 @@ Example C16_example :
   /\ check_option opt_heuristic "rank" = Raise ValueError /\ check_option opt_heuristic "logdet3" = Value VNum.
 Proof. cbv zeta. vm_compute. tauto. Qed.
 
+(** The public entry point.  PEP.solve -- REGENERATED from pep.py on every run (translator/tr_entry.py, fail-closed) -- only
+    selects the back-end (lower-cased name; fall-back to cvxpy when the package or its licence is missing), stores it, and
+    calls _solve_with_wrapper ONCE, handing over every option under its own name, unchanged, together with **kwargs; both
+    signatures declare the same constant defaults.  Hence the option strings checked by the dispatches of _solve_with_wrapper (C16_options) are exactly the caller's: no normalisation, truncation or defaulting happens on the way, and an unknown back-end name can only fall back to cvxpy. *)
+Theorem C16_options_reach_dispatch :
+  entry_ok entry_plan forwarded solve_defaults inner_defaults = true.
+Proof. vm_compute. reflexivity. Qed.
+
 Print Assumptions C16_unsolved.
 Print Assumptions C16_only_value_error.
 Print Assumptions C16_unsolved_generic.
@@ -179,3 +188,4 @@ Print Assumptions C16_none.
 Print Assumptions C16_none_generic.
 Print Assumptions C16_options.
 Print Assumptions C16_step_options.
+Print Assumptions C16_options_reach_dispatch.
